@@ -37,12 +37,12 @@ impl AuthenticationAdapter for MojangAdapter {
         let hash = minecraft_hash(&self.server_id, shared_secret, encoded_public);
 
         // issue a request to Mojang's authentication endpoint
+        // (the client-chosen name is passed as a query parameter so that it is always percent-encoded)
         let username = user.0;
-        let url = format!(
-            "https://sessionserver.mojang.com/session/minecraft/hasJoined?username={username}&serverId={hash}"
-        );
+        let url = "https://sessionserver.mojang.com/session/minecraft/hasJoined";
         let profile = HTTP_CLIENT
-            .get(&url)
+            .get(url)
+            .query(&[("username", username), ("serverId", hash.as_str())])
             .send()
             .await
             .map_err(|err| passage_adapters::Error::FailedFetch {
